@@ -247,9 +247,13 @@ class SimConnector(object):
             self.factory.doStop()
             self.factoryStarted = 0
 
-    def sim_refuse(self):
+    def sim_refuse(self, text=None):
+        """text: the operating system's error string (localised on a real host, hence not ASCII)."""
         self.closed_by = "refused"
-        self._connection_failed(Failure(error.ConnectionRefusedError()))
+        if text:
+            self._connection_failed(Failure(error.ConnectionRefusedError(111, text)))
+        else:
+            self._connection_failed(Failure(error.ConnectionRefusedError()))
 
     def sim_established(self):
         """The peer accepted the SYN."""
